@@ -56,6 +56,10 @@ def constraints(rng, unsupported=False):
 LABELS2 = ['p1', 'Q', 'r_2', 'zz9', 'A7', 'lbl', 'u', 'v8', 'k', 'mm', 'X1', 'yy', 'd4', 'e', 'f0', 'g_']
 
 
+# label names that differ only in letter case are different labels (batch 12: case-insensitive label look-up)
+LABELS3 = ['a', 'A', 'b', 'B', 'c1', 'C1', 'x', 'X', 'n', 'N', 'q', 'Q', 'zz', 'ZZ', 'Zz', 'zZ']
+
+
 def fragment(rng, natoms=None, unsupported=False, collide=False, lrng=None, labels=None):
     """structure from `rng`; layout from `lrng` and label names from `labels`
     (so the same structure can be rendered with another layout and labels)"""
